@@ -320,12 +320,58 @@ fn c10_recipients() -> R {
     Ok(())
 }
 
+/// a hasRecipient entry whose sealed message has been obscured in place (by any action) is skipped: the holders of
+/// the readable entries still decrypt, nobody else does
+fn c10_redacted() -> R {
+    let subs = vec![l(1), n(l(1), vec![a(l(2), l(3))])];
+    let s = &subs[choice(subs.len())];
+    let e = build(s);
+    let pool: Vec<(EncapsulationPrivateKey, EncapsulationPublicKey)> = vec![enckey(0, 0), enckey(0, 1), enckey(1, 0)];
+    let n = 2 + choice(2);
+    let list: Vec<usize> = (0..n).map(|_| choice(3)).collect();
+    let ck = SymmetricKey::from_data({ let mut kb = [0u8; 32]; kb[0] = 11; kb[1..9].copy_from_slice(&rt::nonce().to_be_bytes()); kb });
+    op("encrypt_subject + add_recipient");
+    let mut x = must!(e.encrypt_subject(&ck), "encrypt_subject failed");
+    let mut entries: Vec<Envelope> = vec![];
+    for i in &list {
+        let had: Vec<D> = x.assertions().iter().map(dg).collect();
+        x = x.add_recipient(&pool[*i].1, &ck);
+        let new = crate::must_some!(x.assertions().into_iter().find(|a| !had.contains(&dg(a))), "add_recipient added no assertion");
+        entries.push(new);
+    }
+    let victim = choice(n);
+    let how = choice(3);
+    let sealed = crate::must_some!(entries[victim].as_object(), "hasRecipient entry has no object");
+    op("elide_removing_target_with_action (one recipient's sealed message)");
+    let act = match how { 0 => ObscureAction::Elide, 1 => ObscureAction::Encrypt(test_key()), _ => ObscureAction::Compress };
+    let red = x.elide_removing_target_with_action(&sealed, &act);
+    ensure!(dg(&red) == dg(&x), "root digest changed by obscuring", "");
+    rt::note(format!("{} recipients {:?}, entry {} obscured by action {}", s.show(), list, victim, how));
+    // a stale entry the envelope already carried, with an elided object
+    let red = if flag() { let stale = build(&l(77)); red.add_assertion(known_values::HAS_RECIPIENT, stale.clone()).elide_removing_target(&stale) } else { red };
+    if let Err(m) = well_formed(&red) { return rt::viol("recipient-encrypted envelope not canonical", m); }
+    for (i, key) in pool.iter().enumerate() {
+        op("decrypt_subject_to_recipient");
+        let readable = list.iter().enumerate().any(|(pos, k)| pos != victim && *k == i);
+        let r = red.decrypt_subject_to_recipient(&key.0);
+        if readable {
+            let d = must!(r, "a recipient whose entry is readable cannot decrypt after another entry was obscured");
+            ensure!(bytes(&d.subject()) == bytes(&e.subject()), "recipient decrypted another subject", "recipient {}", i);
+        } else {
+            ensure!(r.is_err(), "a private key without a readable entry decrypted the subject", "key {} list {:?} victim {}", i, list, victim);
+        }
+    }
+    Ok(())
+}
+
 fn c10_wrap_and_seal() -> R {
     let mut subs = subjects();
     subs.push(w(l(1)));
     subs.push(w(w(n(l(1), vec![a(l(2), l(3))]))));
     let s = &subs[choice(subs.len())];
     let e = build(s);
+    // the same envelope reached by offering one of its assertions again in obscured form (present is decided by digest)
+    let e = { let asr = e.assertions(); if !asr.is_empty() && flag() { let i = choice(asr.len()); let again = if flag() { asr[i].elide() } else { must!(asr[i].compress(), "compress failed") }; must!(e.add_assertion_envelope(again), "add refused") } else { e } };
     let before = bytes(&e);
     let esch = choice(2);
     let (rk, other) = (enckey(esch, 0), enckey(esch, 1));
@@ -384,8 +430,11 @@ pub fn prop_c10() -> Prop {
             Scenario { name: "recipients", f: c10_recipients, thorough_only: false,
                 bounds: "4 subjects (leaf, wrapped node, node with one assertion, node whose subject is a node) x every recipient list of length 1..3 over 4 key pairs (3 X25519, 1 ML-KEM-512; duplicates allowed) x {encrypt_subject_to_recipients, encrypt_subject + add_recipient one at a time, the same interleaved with other assertions (lists of <=2 on a bare subject)} x each of the 4 private keys (listed and unlisted) x every digest order (which hasRecipient assertion is tried first is the hash's choice)",
                 api: &["encrypt_subject_to_recipients", "add_recipient", "recipients", "decrypt_subject_to_recipient", "encrypt_subject", "decrypt_subject"] },
+            Scenario { name: "redacted", f: c10_redacted, thorough_only: false,
+                bounds: "2 subjects x every recipient list of length 2..3 over 3 key pairs (2 X25519, 1 ML-KEM-512; duplicates allowed) added one at a time x any one entry's sealed message obscured in place by elide / encrypt / compress x with / without a stale hasRecipient entry with an elided object x each of the 3 private keys x every digest order",
+                api: &["add_recipient", "elide_removing_target_with_action", "recipients", "decrypt_subject_to_recipient"] },
             Scenario { name: "wrap_and_seal", f: c10_wrap_and_seal, thorough_only: false,
-                bounds: "7 envelopes (incl. bare wrapped and doubly wrapped ones) x {X25519, ML-KEM-512} x {encrypt_to_recipient/decrypt_to_recipient, seal_opt/unseal over sender schemes Ed25519 / Schnorr / ECDSA / SSH-Ed25519 with its signing options (+ ML-DSA-44 thorough)} x right key, wrong key of the same scheme, key of the other scheme, wrong sender x every digest order",
+                bounds: "7 envelopes (incl. bare wrapped and doubly wrapped ones; as built or after one of their assertions was offered again in elided / compressed form) x {X25519, ML-KEM-512} x {encrypt_to_recipient/decrypt_to_recipient, seal_opt/unseal over sender schemes Ed25519 / Schnorr / ECDSA / SSH-Ed25519 with its signing options (+ ML-DSA-44 thorough)} x right key, wrong key of the same scheme, key of the other scheme, wrong sender x every digest order",
                 api: &["encrypt_to_recipient", "decrypt_to_recipient", "seal_opt", "unseal"] },
         ],
         assumptions: { let mut v = COMMON_ASSUMPTIONS.to_vec(); v.push("KEM / AEAD internals are executed natively with concrete keys (VERIF_SEED), not solver-decided"); v },
